@@ -59,7 +59,7 @@ PROPS = {
     "C08": {"lean": ["QF.Props.C08", "QF.Props.C08Project", "QF.Props.C08Guards", "QF.Props.C08Construct"], "extra_ns": ["QF.Props.C08Guards", "QF.Props.C08Construct"],
             "sections": [hist("hist", ["select", "drop", "slice", "copy"], cover=["new", "select", "drop", "slice", "copy"]),
                          {"section": "hist", "tag": "hist-new", "opt": "newonly=1", "quick": 150, "thorough": 1500, "cover_ops": {"new"}}]},
-    "C09": {"lean": ["QF.Props.C09", "QF.Props.C09Equals", "QF.Props.C06", "QF.Props.C09Observe"], "extra_ns": ["QF.Props.C06", "QF.Props.C09Observe"],
+    "C09": {"lean": ["QF.Props.C09", "QF.Props.C09Equals", "QF.Props.C06", "QF.Props.C09Observe", "QF.Props.C09StringGen"], "extra_ns": ["QF.Props.C06", "QF.Props.C09Observe", "QF.Props.C09StringGen"],
             "sections": [dict(hist("hist", ["equals", "rebuild", "rebuild", "sort", "permute", "filter", "slice", "string", "tocsv", "tojson", "apply", "rownums", "copy"], quick=250), cover_ops=None),
                          {"section": "jsonsweep", "quick": 1, "thorough": 6, "cover_ops": {"JS"}}]},
     "C11": {"lean": ["QF.Props.C11", "QF.Props.C01Ops"], "extra_ns": ["H", "QF.Props.C01"],
@@ -67,7 +67,7 @@ PROPS = {
             "rule": "cases = batches of 6..12 operations (Filter incl. like/ilike, Sort, Distinct, GroupBy/Aggregate, Apply, FilteredApply, Eval with one shared context, Select/Slice/Copy, ToCSV/ToJSON/String, Equals) "
                     "started together on one frame family, each batch three times, in a binary built with the race detector; every result is compared with the result of the same operation run alone",
             "open_goals": ["the Go memory model is not modelled: absence of races in the real code is observed by the race detector on the explored schedules, not proved"]},
-    "C12": {"lean": ["QF.Props.C12", "QF.Props.C12Read", "QF.Props.C12Infer"], "extra_ns": ["QF.Props.C12Read", "QF.Props.C12Infer"],
+    "C12": {"lean": ["QF.Props.C12", "QF.Props.C12Read", "QF.Props.C12Infer", "QF.Props.C12InferGen"], "extra_ns": ["QF.Props.C12Read", "QF.Props.C12Infer", "QF.Props.C12InferGen"],
             "sections": [{"section": "csvraw", "tag": "csvraw-wit", "opt": "wit=1", "quick": 1, "thorough": 1, "cover_ops": {"C"}},
                          {"section": "csvraw", "quick": 300, "thorough": 3000, "cover_ops": {"C"}},
                          {"section": "csvread", "quick": 300, "thorough": 3000, "cover_ops": {"CV"}}],
@@ -89,11 +89,11 @@ PROPS = {
             "rule": "cases = (float64 bit pattern, buffer state) through the formatter and ToJSON of float-heavy frames (every float token of the output); each output is checked against the Lean definition of shortest round-trip text (exact big-number arithmetic, QF.Num.isShortestRoundTrip) and against strconv; "
                     "the decimal (m, e, exact-integer flag) of the Ryu core must equal the one computed by the mirror QF.Ryu64 (MIRROR-MISMATCH kind=mirror) and the hypothesis of ryu_shortest_partial (exact mulShift64 floors) must hold for it (kind=hypothesis); "
                     "generator: special values, all exponents x boundary mantissas, exact integers, powers of ten +-1ulp, short decimals, subnormals, random bits; distinct by (bits, prefix, spare)"},
-    "C13": {"lean": ["QF.Props.C13", "QF.Props.C13Render", "QF.Props.C13Write", "QF.Props.C12", "QF.Props.C12Read", "QF.Props.C09Observe"], "extra_ns": ["QF.Props.C13Write", "QF.Props.C12", "QF.Props.C12Read", "QF.Props.C09Observe"],
+    "C13": {"lean": ["QF.Props.C13", "QF.Props.C13Render", "QF.Props.C13Write", "QF.Props.C12", "QF.Props.C12Read", "QF.Props.C09Observe", "QF.Props.C13WriterGen"], "extra_ns": ["QF.Props.C13Write", "QF.Props.C12", "QF.Props.C12Read", "QF.Props.C09Observe", "QF.Props.C13WriterGen"],
             "sections": [dict(hist("hist", ["tocsv", "tocsv", "sort", "filter", "apply"], quick=250), cover_ops={"tocsv"})],
             "rule": "cases = ToCSV of a derived frame with random Header/Columns options; the bytes are parsed with the spec's RFC 4180 scanner and must denote the frame cell by cell "
                     "(floats: the text must parse back to the identical bits by exact arithmetic), then ReadCSV of those bytes with the types declared must give the expected frame (both EmptyNull settings)"},
-    "C14": {"lean": ["QF.Props.C14", "QF.Props.C14Quote", "QF.Props.C14ToJson", "QF.Props.C16", "QF.Props.C09Observe"], "extra_ns": ["QF.Props.C14ToJson", "QF.Props.C16", "QF.Props.C09Observe"],
+    "C14": {"lean": ["QF.Props.C14", "QF.Props.C14Quote", "QF.Props.C14ToJson", "QF.Props.C16", "QF.Props.C09Observe", "QF.Props.C14WriterGen"], "extra_ns": ["QF.Props.C14ToJson", "QF.Props.C16", "QF.Props.C09Observe", "QF.Props.C14WriterGen"],
             "sections": [dict(hist("hist", ["tojson", "tojson", "sort", "filter", "apply"], quick=250), cover_ops={"tojson"}),
                          dict({"section": "hist", "tag": "hist-jsonfloat", "opt": "floatheavy=1," + mix("tojson", "tojson", "sort", "filter"), "quick": 150, "thorough": 1500}, cover_ops={"tojson"}),
                          {"section": "jsonsweep", "quick": 1, "thorough": 6, "cover_ops": {"JS"}},
@@ -107,7 +107,7 @@ PROPS = {
                          dict({"section": "csvread", "tag": "csvread-enum", "quick": 200, "thorough": 2000, "cover_ops": {"CV"}}, owns=lambda m: m["op"] == "csvread")],
             "rule": "cases = operations on frames with declared and derived enum columns (cardinalities 1,2,63..65,127..129,191..193,254..257,300; declared orders different from the alphabet) "
                     "through New, ReadCSV and ReadJSON; every mismatch in such a history counts for this property"},
-    "C19": {"lean": ["QF.Props.C19", "QF.Props.C19Sql"], "extra_ns": ["QF.Props.C19Sql"],
+    "C19": {"lean": ["QF.Props.C19", "QF.Props.C19Sql", "QF.Props.C19ScanGen"], "extra_ns": ["QF.Props.C19Sql", "QF.Props.C19ScanGen"],
             "sections": [dict(hist("hist", ["tosql", "tosql", "sort", "filter", "apply"], quick=200), tag="hist-tosql", cover_ops=None, owns=lambda m: m["op"] == "tosql"),
                          {"section": "sqlread", "quick": 1500, "thorough": 15000, "cover_ops": {"SR"}}],
             "rule": "cases = ToSQL of derived frames against a recording database/sql driver (every statement text and argument list compared with the spec for all dialect options) and "
@@ -157,7 +157,7 @@ LEVEL_TEXT = {
                "Lean 4 proof (regenerated function terms; temp-column choreography of the mirror) + differential correspondence"),
     "C08": _lt("gen_guards_semantics: the validation prefixes of Slice/Select/Drop/Copy regenerated from today's source reject exactly the requests the spec rejects, for all requests; gen_checkname_semantics (CheckName = legalName on all byte strings); gen_new_guards_partial; C08Project lemmas (projections commute with observation); pointer_roundtrip. New/Select/Drop/Slice/Copy of the real code are compared exactly with newS/selectS/dropS/sliceS/copyS including every rejection rule.",
                "Lean 4 proof (regenerated guard chains; projection lemmas) + differential correspondence"),
-    "C09": _lt("gen_equals_eq_spec: QFrame.Equals' shape checks and the five Column.Equals bodies regenerated from today's source equal equalsS on all pairs of well-formed frames; gen_stringAt_semantics / gen_append_semantics (the per-cell rendering used by ToCSV/String and ToJSON); equalsS is cell-wise equality (C09Equals). Equals of the real code is compared with the spec in both directions, typed views are cross-checked on every observation, rebuilt frames must be congruent, String() is compared with the frame.",
+    "C09": _lt("gen_equals_eq_spec: QFrame.Equals' shape checks and the five Column.Equals bodies regenerated from today's source equal equalsS on all pairs of well-formed frames; gen_stringAt_semantics / gen_append_semantics (the per-cell rendering used by ToCSV/String and ToJSON); gen_string_semantics (String()'s layout program regenerated from source - widths max(len(header),5), fixLengthString = fixLen, 50-row limit, truncation notice, Dims line - prints the spec's stringPieces on all well-typed frames); equalsS is cell-wise equality (C09Equals). Equals of the real code is compared with the spec in both directions, typed views are cross-checked on every observation, rebuilt frames must be congruent, String() is compared with the frame.",
                "Lean 4 proof (regenerated observation functions) + differential correspondence"),
     "C10": _lt("gen_sticky_all: for every public operation the guard prefix regenerated from today's source returns a failed receiver unchanged (or carries / reports its error) before anything else, for all requests; gen_reject_semantics, gen_guards_semantics, applyS_stops_at_first_failing and the _err_iff characterisations of the spec. Every generated call, valid or malformed, must end in a frame or Err exactly as the spec decides (no panic, Len()=-1 on failure, no user callback after the first error); physical well-formedness is checked on every reachable frame through the hook.",
                "Lean 4 proof (regenerated guard chains of all operations; error discipline of the spec) + differential correspondence over a malformed-argument stream"),
@@ -167,9 +167,9 @@ LEVEL_TEXT = {
     "C12": _lt("read_schedule_independent / any_two_schedules_agree: the mirror of the whole fastcsv reader returns the same rows, fields and error for every read schedule; read_render' / read_eq_spec' / read_render_no_final_newline / read_render_trailing_delim: reading a rendered document returns its fields and equals the RFC 4180 scanner (quoted fields may contain CR LF); columnToData_eq_spec / infer_spec: the mirror of the type inference equals the spec. The real reader and ReadCSV are compared exactly with the array-level mirror, with the proof model (documents up to 2500 bytes) and with the spec on generated documents x read schedules x configurations.",
                "Lean 4 proof (simulation: any schedule = loaded buffer; read-back of rendered documents; type inference) + exact differential correspondence",
                "strconv parsing is a parameter (oracle computed by the harness from the standard library)."),
-    "C13": _lt("parse_write / read_write: the byte-exact mirror of encoding/csv.Writer as ToCSV uses it is inverted by the RFC 4180 scanner and by the model of qframe's own reader for every read schedule (tocsv_read for the rows ToCSV produces); gen_stringAt_semantics (the cell strings regenerated from source). ToCSV output of the real code is parsed by the spec's scanner and must denote the frame; reading it back with ReadCSV must give the frame the property describes.",
+    "C13": _lt("parse_write / read_write: the byte-exact mirror of encoding/csv.Writer as ToCSV uses it is inverted by the RFC 4180 scanner and by the model of qframe's own reader for every read schedule (tocsv_read for the rows ToCSV produces); gen_stringAt_semantics (the cell strings regenerated from source); gen_tocsv_semantics / gen_tocsv_error (ToCSV's record program regenerated from source hands exactly tocsvRows of the selected columns to the csv writer, rejects iff csvColumns does, flushes and returns the writer's error). ToCSV output of the real code is parsed by the spec's scanner and must denote the frame; reading it back with ReadCSV must give the frame the property describes.",
                "Lean 4 proof (writer mirror o reader model = identity; shared with C12) + semantic round-trip correspondence"),
-    "C14": _lt("tojson_parses / tojson_denotes: the mirror of ToJSON produces a text the RFC 8259 parser accepts and whose value is the array of row objects denoting the cells; quoted_parses (AppendQuotedString mirror, compared byte for byte with the real function); gen_append_semantics (per-cell bytes regenerated from source); number tokens: ryu_text_is_shortest (C16). ToJSON output of the real code is parsed by the spec's parser and must denote the frame record by record, for every prefix length of a sweep frame; ReadJSON must invert it.",
+    "C14": _lt("tojson_parses / tojson_denotes: the mirror of ToJSON produces a text the RFC 8259 parser accepts and whose value is the array of row objects denoting the cells; quoted_parses (AppendQuotedString mirror, compared byte for byte with the real function); gen_append_semantics (per-cell bytes regenerated from source); gen_tojson_semantics / gen_tojson_writes (ToJSON's assembly loop regenerated from source writes exactly the mirror's toJSON, one Write per record, cut at the first failing Write); number tokens: ryu_text_is_shortest (C16). ToJSON output of the real code is parsed by the spec's parser and must denote the frame record by record, for every prefix length of a sweep frame; ReadJSON must invert it.",
                "Lean 4 proof (ToJSON mirror against an RFC 8259 parser; exact float semantics) + differential correspondence",
                "encoding/json is trusted for ReadJSON's decoding."),
     "C15": _lt("fail_iff_reached: on the array-level mirror of the CSV reader, for every document, schedule, buffer size and failing call number the reader ends with the failure iff the failing call was made; gen_sticky_all for the writers. Exhaustive fault positions against the real code: every call number of the reader, every byte offset of the writers (ToCSV, ToJSON), ReadJSON reader faults at every offset, failing Prepare/Exec statement and failing row of the SQL driver.",
